@@ -302,6 +302,25 @@ fn explore_docs(em: &mut Em, p: &Pair, gid: &str, id: &str, rng: &mut Rng, ndocs
     }
 }
 
+fn explore_docs_json(em: &mut Em, p: &Pair, gid: &str, rng: &mut Rng, ndocs: usize) {
+    let gg = gen::GrammarGen::new(&p.json, None);
+    let (mut pa, mut pb) = (Parser::new(), Parser::new());
+    pa.set_language(&p.lang_a).unwrap();
+    pb.set_language(&p.lang_b).unwrap();
+    for r in 0..ndocs {
+        let toks = gg.sentence(rng, [6, 20, 60, 200, 600][r % 5]);
+        let (mut text, _) = gg.render(&toks, rng);
+        if text.len() > 30000 {
+            continue;
+        }
+        em.case(&format!("{gid}-d{r}"), &mut pa, &mut pb, &text, None);
+        if r % 2 == 1 {
+            text = gen::mutate_bytes(rng, &text);
+            em.case(&format!("{gid}-b{r}"), &mut pa, &mut pb, &text, None);
+        }
+    }
+}
+
 fn src_grammar(src: &str) -> (String, String, Option<String>) {
     let f: Vec<&str> = src.splitn(3, ':').collect();
     match f[0] {
@@ -316,6 +335,13 @@ fn src_grammar(src: &str) -> (String, String, Option<String>) {
         "zoo" => {
             let d = zoo::zoo_dir(f[1]);
             ("zoo".into(), std::fs::read_to_string(d.join("grammar.json")).expect("zoo grammar"), std::fs::read_to_string(d.join("scanner.c")).ok())
+        }
+        "rich" => {
+            let seed: u64 = f[1].parse().unwrap();
+            let k: usize = f[2].parse().unwrap();
+            let mut rng = Rng::new(seed ^ 0xA11A5 ^ (k as u64).wrapping_mul(0x9E37));
+            let (g, sc) = random_rich_grammar(&mut rng, &format!("c15rich{k}"));
+            ("rich".into(), serde_json::to_string(&g).unwrap(), sc)
         }
         "json" => ("cfg".into(), String::from_utf8(unhex(f[1])).unwrap(), None),
         _ => panic!("bad src {src}"),
@@ -351,13 +377,14 @@ fn main() {
     }
     limit_resources();
     let out_path = args.get(1).expect("usage: c15 <ops-file> [--spec file]").clone();
-    let work = Path::new(&out_path).parent().unwrap().join("c15gen");
+    let out_abs = if Path::new(&out_path).is_absolute() { PathBuf::from(&out_path) } else { std::env::current_dir().unwrap().join(&out_path) };
+    let work = out_abs.parent().unwrap().join("c15gen");
     std::fs::create_dir_all(&work).unwrap();
     let mut file = std::io::BufWriter::new(std::fs::File::create(&out_path).unwrap());
     let mut cu = CUnit::start();
     let seed = seed_from_env();
     let thorough = tier_is_thorough();
-    let nproc = 4;
+    let nproc = 6;
     let mut em = Em { out: &mut file, cases: 0, both_ok: 0, differ: 0 };
     let mut npairs = 0usize;
     let mut rejected = 0usize;
@@ -399,7 +426,7 @@ fn main() {
     }
 
     let mut rng = Rng::new(seed);
-    let (n_cfg, n_op, budget, nrandom, zoo_docs) = if thorough { (1000, 100, 30000, 40, 60) } else { (50, 8, 1500, 8, 12) };
+    let (n_cfg, n_op, budget, nrandom, zoo_docs, n_rich) = if thorough { (1000, 100, 30000, 40, 60, 150) } else { (40, 8, 1500, 8, 12, 14) };
 
     if let Some(corpus) = zoo_corpus("c15") {
         for (i, line) in corpus.lines().enumerate() {
@@ -434,6 +461,28 @@ fn main() {
                 npairs += 1;
             }
             Err(e) => eprintln!("zoo {id}: {}", e.lines().next().unwrap_or("")),
+        }
+    }
+    // rich statement/expression grammars: many aliases per symbol, fields, supertypes, keywords,
+    // named precedences, externals (stub scanner) — every map-ordered table is non-trivial
+    for k in 0..n_rich {
+        let mut grng = Rng::new(seed ^ 0xA11A5 ^ (k as u64).wrapping_mul(0x9E37));
+        let name = format!("c15rich{k}");
+        let (g, scanner) = random_rich_grammar(&mut grng, &name);
+        let json = serde_json::to_string(&g).unwrap();
+        match build_pair(&mut cu, &work, &name, &json, scanner.as_deref(), nproc) {
+            Ok(p) => {
+                if !p.det_ok {
+                    nondet += 1;
+                }
+                em.header(&name, "rich", &format!("rich:{seed}:{k}"), &p);
+                explore_docs_json(&mut em, &p, &name, &mut rng, zoo_docs);
+                npairs += 1;
+            }
+            Err(e) => {
+                rejected += 1;
+                eprintln!("{name}: {}", e.lines().next().unwrap_or(""));
+            }
         }
     }
     for (name, g) in glr_grammars() {
